@@ -1,9 +1,9 @@
 #!/bin/sh
 # Determinism self-test: the same seeds, in fresh interpreters, under two PYTHONHASHSEED values, must give identical digests.
 cd "$(dirname "$0")"
-a=$(PYTHONHASHSEED=0 /venv/bin/python -W ignore tools/digests.py 6) || exit 2
-b=$(PYTHONHASHSEED=0 /venv/bin/python -W ignore tools/digests.py 6) || exit 2
-c=$(PYTHONHASHSEED=3 /venv/bin/python -W ignore tools/digests.py 6) || exit 2
+a=$(PYTHONHASHSEED=0 /venv/bin/python -W ignore tools/digests.py 3) || exit 2
+b=$(PYTHONHASHSEED=0 /venv/bin/python -W ignore tools/digests.py 3) || exit 2
+c=$(PYTHONHASHSEED=3 /venv/bin/python -W ignore tools/digests.py 3) || exit 2
 if [ "$a" != "$b" ]; then echo "selftest: digests differ between two runs of the same seeds"; exit 2; fi
 if [ "$a" != "$c" ]; then echo "selftest: note: digests differ under another PYTHONHASHSEED (set-iteration sites; checks pin PYTHONHASHSEED=0)"; fi
 echo "selftest ok"
